@@ -334,7 +334,66 @@ def count_rule(run, f, rid, rid_suffix):
                         if not any(any(s["k"] == "assign" and s["rhs"]["k"] == "binop" and s["rhs"]["op"] in ("Ge", "Gt") for s in blk["stmts"]) for blk in dom_tests):
                             guarded = False
             ok2 = idx_named == {"index"} and guarded
+        # an iteration that moves on to the next caller element without entering the call loop must count the element it skips
+        if ok2 and loop_calls:
+            loops = cfg.natural_loops()
+            inner_h = None
+            outer_h = None
+            for h, blocks in sorted(loops.items(), key=lambda kv: len(kv[1])):
+                if x in blocks and inner_h is None:
+                    inner_h = h
+                elif x in blocks and outer_h is None:
+                    outer_h = (h, blocks)
+            idx_locals = [l for l in range(len(b.locals)) if b.name_of(l) == "index"]
+            inc_blocks = {d[0] for l in idx_locals for d in du.defs.get(l, []) if d[2] == "assign" and op_const(d[3]["rhs"].get("a")) is None and d[0] in (outer_h[1] if outer_h else set())}
+            if outer_h and inner_h is not None:
+                h, blocks = outer_h
+                # cycles header -> header avoiding the inner loop header and every index increment
+                sub_start = [s_ for s_ in cfg.succ[h] if s_ in blocks]
+                r = set()
+                work = list(sub_start)
+                while work:
+                    y = work.pop()
+                    if y in r or y not in blocks or y == inner_h or y in inc_blocks:
+                        continue
+                    r.add(y)
+                    work.extend(cfg.succ[y])
+                if any(h in cfg.succ[y] for y in r) or any(h == s_ for y in r for s_ in cfg.succ[y]):
+                    ok2 = False
         if ok2:
             run.ok(rid_suffix, b.npath + "/suffix", "vec.iter().skip(index), index += 1 under transferred >= length")
         else:
             run.fail(rid_suffix, b.npath + "/suffix", b.loc(), "%s does not rebuild the kernel array as the caller's elements from the first unfinished one (skip(index) with index advanced only on completion)" % nm)
+
+
+def fresh_mode_rule(run, f, rid):
+    """The wrappers decide and restore the mode from what the kernel says *now*; a remembered answer goes stale when the
+    caller changes the mode with fcntl/ioctl or the number is reused."""
+    run.rule(rid, "is_blocking / set_blocking / set_non_blocking read and write the descriptor's flags through fcntl on every call (no cached answer)", floor=2, template="T5/T9")
+    for fn in ("syscall::unix::is_non_blocking", "syscall::unix::set_non_blocking_flag"):
+        b = need(run, rid, f, fn)
+        if b is None:
+            continue
+        du = DefUse(b)
+        cfg = Cfg(b)
+        fc = [(x, t) for (x, t) in b.calls() if norm(t.get("callee") or "").endswith("libc::fcntl") or norm(t.get("callee") or "") == "libc::fcntl" or norm(t.get("callee") or "").endswith("::fcntl")]
+        statics = set()
+        for (x, t) in b.calls():
+            for a in t["args"]:
+                from analysis.flow import static_of
+                st = static_of(b, du, a)
+                if st:
+                    statics.add(st)
+        first_dom = fc and all(cfg.dominates(fc[0][0], r) for r in cfg.returns)
+        if fc and first_dom and not statics:
+            run.ok(rid, fn, "fcntl(F_GETFL) on every call, no static consulted")
+        else:
+            run.fail(rid, fn, b.loc(), "%s can answer without asking the kernel (fcntl dominates every return: %s, statics consulted: %s): a remembered mode goes stale when the caller changes it or the number is reused, and the wrappers then clear the caller's O_NONBLOCK" % (fn.rsplit("::", 1)[1], bool(first_dom), sorted(statics)))
+    b = need(run, rid, f, "syscall::unix::is_blocking")
+    if b is not None:
+        cs = [norm(t.get("callee") or "") for (_x, t) in b.calls()]
+        du = DefUse(b)
+        if cs == ["syscall::unix::is_non_blocking"]:
+            run.ok(rid, "syscall::unix::is_blocking", "!is_non_blocking(fd)")
+        else:
+            run.fail(rid, "syscall::unix::is_blocking", b.loc(), "is_blocking must be exactly the negation of a fresh is_non_blocking(fd) (calls: %s)" % cs)
